@@ -21,9 +21,23 @@ def canon_slices(s: str) -> str:
 def canon_pattern(p: Any) -> str:
     """regex text normalised through the regex parser (spelling of escapes is immaterial)"""
     try:
-        return repr(rx.parse(str(p)))
+        n = rx.parse(str(p))
     except AnalysisError:
         return str(p)
+    if not rx.backrefs(n):
+        # what the pattern matches does not depend on which of its parts are captured
+        def uncap(x: Any) -> Any:
+            if isinstance(x, rx.Group):
+                return rx.Group("nc" if x.kind == "cap" else x.kind, uncap(x.body), 0, None)
+            if isinstance(x, rx.Rep):
+                return rx.Rep(uncap(x.body), x.lo, x.hi, x.lazy, x.whole)
+            if isinstance(x, rx.Seq):
+                return rx.Seq([uncap(i) for i in x.items])
+            if isinstance(x, rx.Alt):
+                return rx.Alt([uncap(b) for b in x.branches])
+            return x
+        n = rx.strip_groups(uncap(n))
+    return repr(n)
 
 
 def slot(h: Hole) -> str:
@@ -70,16 +84,26 @@ def pred_of(key: Any) -> Optional[str]:
     return None
 
 
-def normaliser_paths(I: Interp) -> List[Path]:
+def normalise_one(I: Interp, operand: Value) -> Value:
+    """what the operand normaliser makes of ONE operand: OperandsParser(<a one-operand list>).parse(), its single
+    element. The per-operand method is reached through the class's public entry, whatever it is called."""
     op = I.p.find_class("OperandsParser")
-    m = op.find_method("_process_operand_elem")
-    if m is None:
-        raise AnalysisError("anchor OperandsParser._process_operand_elem not found")
+    if op is None:
+        raise AnalysisError("anchor class OperandsParser not found")
+    pm = op.find_method("parse")
+    if pm is None:
+        raise AnalysisError("anchor OperandsParser.parse not found")
+    o = I.construct(op, [ListV([operand])], {}, None, None)
+    r = I.call_func(pm, [], {}, o, None, None)
+    if isinstance(r, ListV) and r.absorbed is not None:
+        r = r.absorbed
+    if isinstance(r, ListV) and len(r.items) == 1:
+        return r.items[0]
+    raise AnalysisError(f"OperandsParser.parse of a one-operand list does not give a one-element list: {r!r}")
 
-    def thunk(I: Interp) -> Value:
-        o = I.construct(op, [ListV([])], {}, None, None)
-        return I.call_func(m, [], {"operand_elem": Str((Hole("OP", "operand", True),))}, o, None, None)
-    return I.explore(thunk)
+
+def normaliser_paths(I: Interp) -> List[Path]:
+    return I.explore(lambda I: normalise_one(I, Str((Hole("OP", "operand", True),))))
 
 
 M = "M<" + canon_pattern(r"\([^\)]*\)") + "|OP>"
